@@ -190,9 +190,19 @@ static int thr_id(void)
 #else
 static int thr_id(void) { return -1; }
 #endif
+/* a run that keeps producing events (unbounded speculation, livelock) is cut like a run that exceeds its step budget */
+static void trace_overflow(void)
+{
+	fprintf(out, "{\"n\":%lu,\"thr\":-1,\"e\":\"Hang\",\"why\":\"trace-cap lines=%lu\"}\n", seqno + 1, seqno);
+	fflush(out);
+	_exit(4);
+}
 
+SHARED unsigned long max_lines;
 #define EMIT(...)                                                                                                      \
 	do {                                                                                                           \
+		if(max_lines && seqno >= max_lines)                                                                    \
+			trace_overflow();                                                                              \
 		fprintf(out, "{\"n\":%lu,\"thr\":%d,", ++seqno, thr_id());                                             \
 		fprintf(out, __VA_ARGS__);                                                                             \
 		fputs("}\n", out);                                                                                     \
@@ -923,6 +933,7 @@ int main(int argc, char **argv)
 	stop_lp = stop_cnt = -1;
 	next_mid = 1;
 	batch_size = 64;
+	max_lines = 40000;
 	const char *model = NULL, *outp = NULL, *script = NULL, *stats = NULL;
 	int net_mode = 0;
 	unsigned skew = 0, park = 0;
@@ -955,6 +966,7 @@ int main(int argc, char **argv)
 		else if(!strcmp(a, "--ranks")) dist_ranks = atoi(v), ++i;
 		else if(!strcmp(a, "--skew")) skew = (unsigned)atoi(v), ++i;
 		else if(!strcmp(a, "--park")) park = (unsigned)atoi(v), ++i;
+		else if(!strcmp(a, "--max-lines")) max_lines = strtoul(v, NULL, 10), ++i;
 		else if(!strcmp(a, "--net")) net_mode = atoi(v), ++i;
 		else die("unknown argument");
 	}
